@@ -370,7 +370,7 @@ func init() {
 			"Encode->Decode identity is checked for frames built with SetPayload (payload-less pooled frames belong to C16)",
 		},
 		Builds:      func(string) []string { return []string{"checkptr"} },
-		NumCases:    func(tier, build string) int { return vf.Tiered(tier, 20000, 8000000) },
+		NumCases:    func(tier, build string) int { return vf.Tiered(tier, 100000, 8000000) },
 		Floor:       func(tier string) int { return vf.Tiered(tier, 1000, 20000) },
 		CaseTimeout: 30 * time.Second,
 		Run:         runC07,
